@@ -11,7 +11,13 @@
 //     finished processing everything fed so far (deterministic, one packet at a time), and
 //     several Feed calls from different goroutines race for real (Direction B);
 //   - in loop mode (Net.Loop) forwards every Tell / Ask to the destination node by itself, so
-//     that two stacks built on two nodes of one Net talk to each other.
+//     that two stacks built on two nodes of one Net talk to each other;
+//   - is the most hostile LEGAL inner swarm with respect to buffer ownership (p2p.Receiver: the
+//     message may be used until fn returns): every Receive / ServeAsk callback gets a private
+//     scratch copy of the packet which is OVERWRITTEN as soon as the callback returns, with the
+//     bytes of the previous, different packet delivered to the node (a valid-looking fragment of
+//     another message) padded with 0xEE.  A layer that keeps an alias of the payload therefore
+//     delivers foreign bytes, which the trace operators report.
 //
 // The implementation deliberately shares no code with /repo (no swarmutil hubs).
 package netsim
@@ -129,6 +135,39 @@ type Node struct {
 	parkedAsk int // ServeAsk callers currently waiting for a request
 	entered   int // total Receive entries
 	taken     int // total packets handed to Receive callers
+	prev      []byte // the previous packet handed to a callback of this node (poison source)
+}
+
+// Poison overwrites buf (a scratch copy whose callback has returned) with the bytes of the previous,
+// different packet of the node, padded with 0xEE, and remembers orig as the next poison source.
+func (nd *Node) poison(buf, orig []byte) {
+	nd.mu.Lock()
+	prev := nd.prev
+	if !bytesEqual(prev, orig) {
+		nd.prev = orig
+	}
+	nd.mu.Unlock()
+	Poison(buf, prev)
+}
+
+// Poison fills buf with src (if any) followed by 0xEE bytes.
+func Poison(buf, src []byte) {
+	n := copy(buf, src)
+	for i := n; i < len(buf); i++ {
+		buf[i] = 0xEE
+	}
+}
+
+func bytesEqual(a, b []byte) bool {
+	if len(a) != len(b) {
+		return false
+	}
+	for i := range a {
+		if a[i] != b[i] {
+			return false
+		}
+	}
+	return true
 }
 
 var _ p2p.SecureAskSwarm[Addr, string] = &Node{}
@@ -185,8 +224,10 @@ func (nd *Node) Receive(ctx context.Context, fn func(p2p.Message[Addr])) error {
 	case req := <-nd.tells:
 		unpark(true)
 		defer close(req.done)
-		// the callback owns the buffer for its duration: hand it a private copy
-		fn(p2p.Message[Addr]{Src: req.pkt.Src, Dst: req.pkt.Dst, Payload: append([]byte{}, req.pkt.Data...)})
+		// the callback owns the buffer for its duration only: hand it a private copy and overwrite it afterwards
+		scratch := append([]byte{}, req.pkt.Data...)
+		fn(p2p.Message[Addr]{Src: req.pkt.Src, Dst: req.pkt.Dst, Payload: scratch})
+		nd.poison(scratch, req.pkt.Data)
 		return nil
 	}
 }
@@ -258,7 +299,13 @@ func (nd *Node) ServeAsk(ctx context.Context, fn func(ctx context.Context, resp 
 	case req := <-nd.asks:
 		unpark()
 		defer close(req.done)
-		req.n = fn(ctx, req.resp, p2p.Message[Addr]{Src: req.pkt.Src, Dst: req.pkt.Dst, Payload: append([]byte{}, req.pkt.Data...)})
+		scratch := append([]byte{}, req.pkt.Data...)
+		resp := make([]byte, len(req.resp))
+		req.n = fn(ctx, resp, p2p.Message[Addr]{Src: req.pkt.Src, Dst: req.pkt.Dst, Payload: scratch})
+		// the handler's view of the request and of the response buffer ends here
+		copy(req.resp, resp)
+		nd.poison(scratch, req.pkt.Data)
+		Poison(resp, nil)
 		return nil
 	}
 }
